@@ -299,6 +299,17 @@ class HierDictDocument(DictDocument):
                 retval.append(self._from_dict_value(ctx, i, serializer, child,
                                                                      validator))
 
+            if validator is self.SOFT_VALIDATION \
+                                   and self.get_cls_attrs(cls).validate_freq:
+                attrs = self.get_cls_attrs(serializer)
+                if len(retval) < attrs.min_occurs:
+                    raise ValidationError(cls.get_type_name(),
+                        '%%s must have at least %d items.' % attrs.min_occurs)
+
+                if len(retval) > attrs.max_occurs:
+                    raise ValidationError(cls.get_type_name(),
+                        '%%s must have at most %d items.' % attrs.max_occurs)
+
             return retval
 
         cls_attrs = self.get_cls_attrs(cls)
@@ -404,7 +415,10 @@ class HierDictDocument(DictDocument):
 
         attrs = self.get_cls_attrs(cls)
         if validator is self.SOFT_VALIDATION and attrs.validate_freq:
-            self._check_freq_dict(cls, frequencies, flat_type_info)
+            # what's counted here is keys: the items of an array are counted
+            # where the array is read
+            self._check_freq_dict(cls, frequencies, flat_type_info,
+                                                             counts_items=False)
 
         return inst
 
